@@ -1523,8 +1523,15 @@ class Interp:
             return None
         k_, c_ = s.target.id, it.args[0].id
         last = s.body[-1]
-        if k_ == c_ or not (isinstance(last, ast.AugAssign) and isinstance(last.op, ast.Add) and isinstance(last.target, ast.Name) and
-                            last.target.id == c_ and isinstance(last.value, ast.Constant) and last.value.value == 1):
+        inc = isinstance(last, ast.AugAssign) and isinstance(last.op, ast.Add) and isinstance(last.target, ast.Name) and \
+            last.target.id == c_ and isinstance(last.value, ast.Constant) and last.value.value == 1
+        if not inc and isinstance(last, ast.Assign) and len(last.targets) == 1 and isinstance(last.targets[0], ast.Name) and \
+                last.targets[0].id == c_ and isinstance(last.value, ast.BinOp) and isinstance(last.value.op, ast.Add):
+            a_, b_ = last.value.left, last.value.right
+            if any(isinstance(x, ast.Name) and x.id in (k_, c_) and isinstance(y, ast.Constant) and y.value == 1 for x, y in ((a_, b_), (b_, a_))):
+                inc = True       # c = k + 1 (k == c here): the same step
+                last = ast.copy_location(ast.AugAssign(target=ast.Name(id=c_, ctx=ast.Store()), op=ast.Add(), value=ast.Constant(value=1)), last)
+        if k_ == c_ or not inc:
             return None
         for b_ in s.body[:-1]:
             for x in ast.walk(b_):
